@@ -98,7 +98,7 @@ def run(ctx):
         prog, queries = meta[jid]
         q, t = queries[i]
         if o[0] == "panic":
-            failures.append({"key": ("one-char-atom-list-compact-string-panic" if S.uses_char_lists(prog, q) else "panic:" + o[1][:48]), "what": "query panics on a run without cyclic bindings", "input": S.program_text(prog) + "?- " + S.query_text(q, t),
+            failures.append({"key": S.panic_key(prog, q, o[1]), "what": "query panics on a run without cyclic bindings", "input": S.program_text(prog) + "?- " + S.query_text(q, t),
                              "impl": o[1][:300], "spec": "no panic", "property_fails": True})
             continue
         if c == 1:
@@ -113,7 +113,7 @@ def run(ctx):
     for (jid, i, path, o) in bad:
         prog, queries = meta[jid]
         q, t = queries[i]
-        key = S.failure_key(prog, q)
+        key = S.failure_key(prog, q, o)
         reported.setdefault(key, [])
         if len(reported[key]) >= 1:
             reported[key].append(1)
